@@ -568,7 +568,7 @@ func (w *c19world) planRaw() *rawPlan {
 		case 2: // domain whose length byte claims more than is there
 			p.addrType, p.addr = protocol.AddrTypeDomain, append([]byte{40}, d.String()...)
 		case 3: // domain whose length byte claims less
-			p.addrType, p.addr = protocol.AddrTypeDomain, append([]byte{byte(len(d.String()))}, (d.String() + "xyz")...)
+			p.addrType, p.addr = protocol.AddrTypeDomain, append([]byte{byte(len(d.String()))}, (d.String()+"xyz")...)
 		case 4: // unknown address type
 			p.addrType, p.addr = 0x02, b4[:]
 		case 5: // empty domain
